@@ -42,8 +42,8 @@ MUST_REACH = [
     "client.Authenticated.do_move",
 ]
 BOUNDS = {
-    "quick": {"messages": "n = 3", "sessions": 2, "epoch": "1-2 operations by A (12 kinds) then 1 command by B (6 kinds) then flush", "symbolic": "\\Deleted subset, B idling, sequence numbers 1..n, UID set u or u:* with u in 4..7 (quick) / 1..10 (thorough), number of delivered messages 0..2"},
-    "thorough": {"messages": "n in 1..4", "sessions": 2, "epoch": "same menu, every (opA, opB) pair for every n"},
+    "quick": {"messages": "n = 3", "sessions": 2, "epoch": "1-2 operations by A (12 kinds) then 1 command by B (6 kinds) then flush", "symbolic": "\\Deleted subset, B idling, sequence numbers 1..n, UID set u or u:* with u in 4..7 (quick) / 3..8 (thorough), number of delivered messages 0..2"},
+    "thorough": {"messages": "n in 2..4", "sessions": 2, "epoch": "same menu, every (opA, opB) pair for every n"},
 }
 SYMBOLIC = ["\\Deleted membership per message", "observer idling", "sequence number of the observer's command", "sequence number of the actor's command", "UID range endpoints", "delivered message count"]
 REALISED = ["message numbers once formatted into response lines (f-strings) are realised by CrossHair: the decision tree enumerates them inside the bound"]
@@ -241,9 +241,9 @@ def _size(n, opa, opb, nu):
 
 def jobs(tier):
     js = []
-    ns = [3] if tier == "quick" else [1, 2, 3, 4]
-    T = 240 if tier == "quick" else 900
-    umin, umax = (4, 7) if tier == "quick" else (1, 10)
+    ns = [3] if tier == "quick" else [2, 3, 4]
+    T = 600 if tier == "quick" else 900
+    umin, umax = (4, 7) if tier == "quick" else (3, 8)
     nu = (umax - umin + 1) * 2
     for n in ns:
         for opa in OPS_A:
